@@ -121,7 +121,6 @@ func loadProg(patterns []string) (*Prog, error) {
 // encodeFunc produces the obligations of one function under contract.
 func (p *Prog) encodeFunc(fn *ssa.Function, spec *FuncSpec) *Enc {
 	e := newEnc(p, fn, spec)
-	e.loadAxioms()
 	st := &state{regs: map[string]string{}, stale: map[string]int{}}
 	fr := e.newFrame(fn, spec, 0)
 	fr.isRoot = true
@@ -157,6 +156,12 @@ func (p *Prog) encodeFunc(fn *ssa.Function, spec *FuncSpec) *Enc {
 		o := fr.oblige("cover", "return-reachable", "true", or(rcs...), fn.Pos(), nil)
 		o.Cover = true
 	}
+	for _, c := range spec.Exits {
+		if !fr.exitDone[c.Label] {
+			e.errf("%s:%d: exit clause #%s applies at no return point: %s", c.File, c.Line, c.Label, fr.exitSkipped[c.Label])
+		}
+	}
+	e.loadAxioms()
 	e.finishModelTerms(st)
 	return e
 }
@@ -231,18 +236,56 @@ func (e *Enc) finishModelTerms(entry *state) {
 	}
 }
 
+// loadAxioms adds the axioms relevant to this function: an axiom is included when one of the ghost functions it
+// mentions is used by the function's contracts (or by an axiom already included).
 func (e *Enc) loadAxioms() {
 	fr := &frame{e: e, fn: e.root, params: map[string]binding{}}
-	for _, ax := range e.p.specs.Axioms {
-		env := &specEnv{fr: fr, e: e, vars: map[string]binding{}, cur: &state{regs: map[string]string{}, stale: map[string]int{}}, pkgPath: ax.PkgPath}
-		t, err := env.boolExpr(ax.Text)
-		if err != nil {
-			e.errf("axiom %s: %v", ax.Label, err)
-			continue
+	done := map[int]bool{}
+	for changed := true; changed; {
+		changed = false
+		for i, ax := range e.p.specs.Axioms {
+			if done[i] {
+				continue
+			}
+			relevant := false
+			for name := range e.ghostUsed {
+				if mentionsIdent(ax.Text, name) {
+					relevant = true
+					break
+				}
+			}
+			if !relevant {
+				continue
+			}
+			done[i] = true
+			changed = true
+			env := &specEnv{fr: fr, e: e, vars: map[string]binding{}, cur: &state{regs: map[string]string{}, stale: map[string]int{}}, pkgPath: ax.PkgPath}
+			t, err := env.boolExpr(ax.Text)
+			if err != nil {
+				e.errf("axiom %s: %v", ax.Label, err)
+				continue
+			}
+			e.axiomAsserts = append(e.axiomAsserts, "(assert "+t+") ; axiom "+ax.Label+" ;;bg")
+			e.axiomNames = append(e.axiomNames, ax.Label)
 		}
-		e.axiomAsserts = append(e.axiomAsserts, "(assert "+t+") ; axiom "+ax.Label)
-		e.axiomNames = append(e.axiomNames, ax.Label)
 	}
+}
+
+func mentionsIdent(text, name string) bool {
+	for i := 0; i+len(name) <= len(text); i++ {
+		if text[i:i+len(name)] == name {
+			before := i == 0 || !isIdentChar(text[i-1])
+			after := i+len(name) == len(text) || !isIdentChar(text[i+len(name)])
+			if before && after {
+				return true
+			}
+		}
+	}
+	return false
+}
+
+func isIdentChar(c byte) bool {
+	return c == '_' || (c >= 'a' && c <= 'z') || (c >= 'A' && c <= 'Z') || (c >= '0' && c <= '9')
 }
 
 type funcResult struct {
@@ -388,7 +431,7 @@ func cmdAll() int {
 			if !ok || *verbose {
 				fmt.Printf("%s %-8s %-10s %5.2fs %s %v\n", mark, o.Result, o.Backend, o.Secs, o.Name, o.Props)
 				if !ok {
-					fmt.Printf("      at %s  src: %s\n", o.Pos, o.Src)
+					fmt.Printf("      at %s  src: %s\n", o.Pos, o.src())
 					if o.Result == "sat" {
 						fmt.Printf("      model: %s\n", modelSummary(o))
 					} else {
